@@ -162,6 +162,15 @@ fn run<const N: usize>(job: &Value) {
                 let _ = std::fs::remove_file(&path);
                 r
             }
+            "inspect" => match tgt.inspect(u("v")) {
+                Ok(t) => json!({"text": t}),
+                Err(e) => json!({"error": e.to_string()}),
+            },
+            "v_print" => match tgt.v_print(u("v")) {
+                Ok(t) => json!({"text": t}),
+                Err(e) => json!({"error": e.to_string()}),
+            },
+            "debug" => json!({"text": format!("{tgt:?}")}),
             "to_xml" => json!({"text": tgt.to_xml().unwrap()}),
             "to_dot" => json!({"text": tgt.to_dot()}),
             "clone" => {
